@@ -560,7 +560,10 @@ pub fn strftime(ts: time::OffsetDateTime, fmt: &str) -> Result<String, DateForma
                 output.push(lit);
             }
             Formats::Unknown => {
-                output.push_str(&fmt[fmt_pos..=cursor]);
+                // `cursor` is the byte index where the last consumed char starts
+                let end = fmt_iter.peek().map_or(fmt.len(), |(i, _)| *i);
+                debug_assert!(cursor < end);
+                output.push_str(&fmt[fmt_pos..end]);
                 continue;
             }
         };
